@@ -6,6 +6,7 @@
 
 #include "../common/equals.h"
 #include "vector.h"
+#include "../common/verif_hooks.h"
 
 template <typename T>
 bool equals(const Vector<T>& lhs, const Vector<T>& rhs)
@@ -26,6 +27,7 @@ bool equals(const Vector<T>& lhs, const Vector<T>& rhs)
 template <typename T>
 void assign(Vector<T>& lhs, const T& value)
 {
+    GMGPOLAR_VERIF_TRACE("assign", -1, {&lhs}, {static_cast<double>(value)});
     std::size_t n = lhs.size();
 #pragma omp parallel for if (n > 10'000)
     for (std::size_t i = 0; i < n; ++i) {
@@ -36,6 +38,7 @@ void assign(Vector<T>& lhs, const T& value)
 template <typename T>
 void add(Vector<T>& result, const Vector<T>& x)
 {
+    GMGPOLAR_VERIF_TRACE("add", -1, {&result, &x});
     if (result.size() != x.size()) {
         throw std::invalid_argument("Vectors must be of the same size.");
     }
@@ -75,6 +78,7 @@ void subtract(Vector<T>& result, const Vector<T>& x)
 template <typename T>
 void linear_combination(Vector<T>& x, const T& alpha, const Vector<T>& y, const T& beta)
 {
+    GMGPOLAR_VERIF_TRACE("linear_combination", -1, {&x, &y}, {static_cast<double>(alpha), static_cast<double>(beta)});
     if (x.size() != y.size()) {
         throw std::invalid_argument("Vectors must be of the same size.");
     }
